@@ -100,6 +100,8 @@ structure RtlFacts where
   compCond : List String               -- floo_route_comp: when the table is used
   compTable : List String              -- floo_route_comp: gen_table_routing
   compRoute : List String              -- floo_route_comp: gen_route
+  routerDefaults : List String         -- floo_router: defaults of XYRouteOpt and NoLoopback
+  chimneyComp : List (List String)     -- every instantiation of floo_route_comp in the two chimneys (file name first)
   deriving Inhabited
 
 end FlooVerif.Rtl
